@@ -18,7 +18,7 @@ EXPLANATION = (
     "result. Does not decide jiff's ordering/arithmetic (overflow of now±leeway is jiff's documented panic/saturation behaviour).")
 ASSUMPTIONS = ["rustc type checking / MIR construction are correct", "jiff::Timestamp ordering is a total order and Add/Sub Duration are exact",
                "str equality is byte equality"]
-FLOORS = {"R11.1": 6, "R11.2": 8, "R11.3": 1}
+FLOORS = {"R11.1": 6, "R11.2": 8, "R11.3": 1, "R11.4": 3}
 EXHAUSTIVE = True
 
 def field_names(ctx, crate, adt_path):
@@ -352,7 +352,34 @@ LEAVES = {"Time": "<claims_impls::Time as paseto_core::validation::Validate>::va
           "FromIssuer": "<claims_impls::FromIssuer<T> as paseto_core::validation::Validate>::validate",
           "ForAudience": "<claims_impls::ForAudience<T> as paseto_core::validation::Validate>::validate"}
 
+VALIDATOR_TYPES = ("Time", "TimeWithLeeway", "HasExpiry", "ForSubject", "FromIssuer", "ForAudience")
+
+def check_constructors(ctx):
+    """R11.4: wherever the library itself builds a time validator, every field is an argument (or a field of `self`) passed through
+    unmodified, or the current time: the leeway applied is exactly the leeway the caller gave, `valid_at(t)` checks against t."""
+    from origins import Origins
+    cr = ctx.crates["paseto_json"]
+    n = 0
+    for k, f in cr.fns.items():
+        if not f.get("body"):
+            continue
+        for b in f["body"]["blocks"]:
+            for st in b["stmts"]:
+                if st["k"] == "assign" and st["rv"]["k"] == "agg" and st["rv"]["ak"].get("a") == "adt" and st["rv"]["ak"]["path"].split("::")[-1] in VALIDATOR_TYPES:
+                    og = Origins(f)
+                    probs = []
+                    for i, o in enumerate(st["rv"]["ops"]):
+                        t = og.operand(o, 0)
+                        ok = (isinstance(t, tuple) and t and (t[0] == "arg" or (t[0] == "field" and isinstance(t[1], tuple) and t[1][0] == "arg")
+                                                              or (t[0] == "call" and t[1] == "jiff::timestamp::Timestamp::now")))
+                        if not ok:
+                            probs.append(f"field {i} of {st['rv']['ak']['path'].split('::')[-1]} is computed ({str(t)[:160]}) instead of being the caller's value passed through")
+                    n += 1
+                    ctx.add("R11.4", f"C11/constructor/{k}", not probs, "; ".join(probs), site_of(f))
+    return n
+
 def run(ctx):
+    check_constructors(ctx)
     for name, k in LEAVES.items():
         check_leaf(ctx, name, k)
     check_combinators(ctx)
